@@ -1038,3 +1038,107 @@ let () =
       if l = [] then "-" else String.concat "," l
     | _ -> "badargs")
 
+(* ---- xflate Writer / Reader with Reset (XFlate/WriterReset.v, XFlate/ReaderReset.v) ----
+   xwr <zero|new> <pre hex> <lvl> <chunk> <idx> op... ; op = w:<hex> | f:<mode> | c | R:<pre hex>
+     one observation per call:
+     <n>:<err>:<InputOffset>:<OutputOffset>:<len of the current sink>:<len(idx.Records)>:<idx.BackSize>,
+     then the bytes of every sink: at each Reset those of the sink being abandoned, at the end
+     those of the current one
+   xwrkb : the same with the regression "Reset keeps idx.BackSize" (not used by the checks; for
+     replaying the witness of xw_reset_keepback_refuted against the real code)
+   xrr op... ; op = s:<off>:<whence> | r:<n> | c | R:<hexdata> ; starts from the zero Reader, so
+     NewReader is the first R
+     one observation per call, each followed by
+     @<OutputOffset of the decompressor object | kept>/<ri>/<offset>/<discard>/<chk.csize>/<chk.rsize>/<chk.typ>
+     (just @~ after a Seek/Read/Close that returned an error other than io.EOF); for R:
+     R:<err>:<ranges read from the new source while opening>:<len(idx.Records)>@...
+   xrrlog op... : per call the ranges the model logs (for the coverage oracle of the harness) *)
+let coalesce (l : (int * int) list) : (int * int) list =
+  let rec go acc l = match acc, l with
+    | _, [] -> List.rev acc
+    | _, (_, 0) :: r -> go acc r
+    | (o, n) :: a, (o2, n2) :: r when o + n = o2 -> go ((o, n + n2) :: a) r
+    | _, x :: r -> go (x :: acc) r in
+  go [] l
+let log_to_string (l : (int * int) list) : string =
+  if l = [] then "-" else String.concat ";" (List.map (fun (o, n) -> Printf.sprintf "%d+%d" o n) l)
+let ilog (l : (n * n) list) : (int * int) list = List.map (fun (o, n) -> (int_of_n o, int_of_n n)) l
+
+let xwr_handler (keepback : bool) (args : string list) : string =
+  match args with
+  | mode :: pre :: lvl :: chunk :: idx :: ops ->
+    (match xwr_start (mode = "zero") (bytes_of_hex pre) (z_of_string lvl) (z_of_string chunk) (z_of_string idx) with
+     | Inl _ -> "new:refused"
+     | Inr st0 ->
+       let wops = List.map (fun o -> match colon o with
+         | ["w"; h] -> WsOp (WWrite (bytes_of_hex h))
+         | ["f"; m] -> WsOp (WFlush (flushmode_of_int (int_of_string m)))
+         | ["R"; h] -> WsReset (bytes_of_hex h)
+         | _ -> WsOp WClose) ops in
+       (* step by step, to read idx.Records / idx.BackSize off the state after every call *)
+       let step = if keepback then ws_step_keepback else ws_step in
+       let st = ref st0 in
+       let obs = List.map (fun o -> let (ob, st') = step ext_deflate !st o in st := st'; (ob, st')) wops in
+       let cur = ref (match st0 with WZero -> [] | WLive s -> s.w_sink) in
+       let sinks = ref [] in
+       let per = List.map2 (fun o (((n, e), ((i, ou), sk)), st') ->
+         (match o with WsReset _ -> sinks := hex_of_bytes !cur :: !sinks | _ -> ());
+         cur := sk;
+         let (nrecs, back) = (match st' with WZero -> (0, 0) | WLive s -> (List.length s.w_recs, int_of_n s.w_back)) in
+         Printf.sprintf "%d:%s:%d:%d:%d:%d:%d" (int_of_n n) (oerr_name e) (int_of_n i) (int_of_n ou) (List.length sk) nrecs back) wops obs in
+       sinks := hex_of_bytes !cur :: !sinks;
+       Printf.sprintf "%s|%s" (if per = [] then "-" else String.concat "," per) (String.concat ";" (List.rev !sinks)))
+  | _ -> "badargs"
+
+let xrr_ops (ops : string list) : xrop list =
+  List.map (fun o -> match colon o with
+    | ["s"; off; wh] -> RsOp (RSeek (z_of_string off, z_of_string wh))
+    | ["r"; n] -> RsOp (RRead (n_of_string n))
+    | ["R"; h] -> RsReset (bytes_of_hex h)
+    | _ -> RsOp RClose) ops
+
+let () =
+  register "xwr" (xwr_handler false);
+  register "xwrkb" (xwr_handler true);
+  register "xrr" (fun ops ->
+    (* step by step, to read the decompressor's OutputOffset and len(idx.Records) off the state *)
+    let st = ref (RZero false) in
+    let zout st = (match st with RZero _ -> None | RLive s -> Some (int_of_n s.r_zr.z_outoff)) in
+    let obs = List.map (fun o -> let before = zout !st in let (ob, st') = rs_step !st o in st := st'; (ob, st', before)) (xrr_ops ops) in
+    let per = List.map (fun ((o, lg), st', before) ->
+      let (cur, nrecs) = (match st' with
+        | RZero _ -> ("/0/0/0/0/0/0", 0)
+        | RLive s ->
+          let ((cs, rs), ty) = s.r_chk in
+          (Printf.sprintf "/%s/%s/%s/%s/%s/%s" (z_to_string s.r_ri) (z_to_string s.r_offset)
+             (z_to_string s.r_discard) (z_to_string cs) (z_to_string rs) (z_to_string ty), List.length s.r_recs)) in
+      (* the decompressor's OutputOffset: see the harness (wxfreset.go) for "kept" and "~" *)
+      let zo (is_reset : bool) (e : err option) =
+        if (not is_reset) && e <> None && e <> Some EEOF && zout st' <> None then "~" else
+        (match zout st' with
+         | None -> "-"
+         | Some z ->
+           if is_reset && e <> None && before = Some z then "kept"
+           else string_of_int z) ^ cur in
+      match o with
+      | RsO (OSeek (p, e)) -> Printf.sprintf "s:%s:%s@%s" (if e = None then z_to_string p else "0") (oerr_name e) (zo false e)
+      | RsO (ORead (b, e)) -> Printf.sprintf "r:%s:%s@%s" (hex_of_bytes b) (oerr_name e) (zo false e)
+      | RsO (OClose e) -> Printf.sprintf "c:%s@%s" (oerr_name e) (zo false e)
+      | RsOReset e ->
+        (* after a successful open the last entry is the first chunk, prepared but not read *)
+        let l = ilog lg in
+        let l = if e = None then List.rev (List.tl (List.rev l)) else l in
+        Printf.sprintf "R:%s:%s:%d@%s" (oerr_name e) (log_to_string (coalesce l)) nrecs (zo true e)) obs in
+    if per = [] then "-" else String.concat "," per);
+  register "xrrlog" (fun ops ->
+    let xops = xrr_ops ops in
+    let (obs, _) = rs_run (RZero false) xops in
+    let prev = ref 0 in
+    let per = List.map2 (fun o (_, lg) ->
+      let l = ilog lg in
+      let fresh = (match o with
+        | RsReset _ -> l
+        | _ -> let rec drop k l = if k <= 0 then l else match l with [] -> [] | _ :: r -> drop (k - 1) r in drop !prev l) in
+      prev := List.length l;
+      log_to_string fresh) xops obs in
+    if per = [] then "-" else String.concat "," per)
